@@ -24,6 +24,8 @@ ASSUMPTIONS = ["cases where comparing a generated value with the end by wall clo
                "x in interval <=> start <= x <= end is asserted there"]
 UNITS = ["years", "months", "weeks", "days", "hours", "minutes", "seconds", "microseconds"]
 ZONES = ["UTC", "Europe/Paris", "America/New_York", "Australia/Lord_Howe", "Asia/Kolkata", "America/Sao_Paulo", "Pacific/Apia", "Europe/London", "Europe/Lisbon", None, None]
+OVERLAP_ZONES = ["Europe/Moscow", "Europe/Volgograd", "Europe/Paris", "Europe/London", "Australia/Lord_Howe", "America/Caracas", "Asia/Pyongyang", "Antarctica/Troll",
+                 "America/St_Johns", "Europe/Lisbon", "Africa/Casablanca", "Asia/Kathmandu", "Pacific/Kiritimati", "America/Sao_Paulo"]
 APPROX = dict(years=365 * 86400, months=30 * 86400, weeks=7 * 86400, days=86400, hours=3600, minutes=60, seconds=1)
 
 
@@ -97,6 +99,25 @@ def case_strategy(draw, max_steps):
             return {"unit": unit, "n": n_, "steps": steps, "date": False, "start": [w.year, w.month, w.day, w.hour, w.minute, w.second, draw(st.sampled_from([0, 1, 999999]))],
                     "zone": zone, "sign": draw(st.sampled_from([1, 1, -1])), "absolute": draw(st.booleans()), "extra": draw(st.one_of(st.just(0), st.floats(0.01, 0.95))),
                     "direct_iter": False}
+    if draw(st.integers(0, 11)) == 0:
+        # a grid whose step divides the length of a repeated stretch of wall clock (any zone, DST or a change of standard time): every wall time in
+        # it is stepped on twice, once per occurrence, and both are distinct values of the sequence
+        zz = draw(st.one_of(st.sampled_from(OVERLAP_ZONES), S.zones_with_transitions()))
+        ov = [x for x in T.transitions(zz) if x[2] < x[1] and x[1] - x[2] < 86400]
+        if ov:
+            t, oa, ob = ov[draw(st.integers(0, len(ov) - 1))]
+            g = oa - ob
+            cands = [(u_, n_) for u_, sec in (("hours", 3600), ("minutes", 60), ("seconds", 1)) for n_ in range(1, 61) if g % (sec * n_) == 0]
+            exact = [(u_, g // sec) for u_, sec in (("hours", 3600), ("minutes", 60), ("seconds", 1)) if g % sec == 0]   # consecutive values share their wall time
+            gu, n_ = draw(st.one_of(st.sampled_from(exact), st.sampled_from(cands)))
+            stepsec = n_ * APPROX[gu]
+            before = draw(st.integers(0, 6))
+            w = D.datetime(1970, 1, 1) + D.timedelta(seconds=t + oa - g - before * stepsec + draw(st.sampled_from([0, 0, 1, stepsec - 1])))
+            if 1902 <= w.year <= 2100:
+                return {"unit": gu, "n": n_, "steps": before + draw(st.integers(1, min(3 * g // stepsec + 4, 400))), "date": False,
+                        "start": [w.year, w.month, w.day, w.hour, w.minute, w.second, draw(st.sampled_from([0, 0, 1, 999999]))], "zone": zz,
+                        "sign": draw(st.sampled_from([1, 1, -1])), "absolute": draw(st.booleans()), "extra": draw(st.one_of(st.just(0), st.floats(0.01, 0.95))),
+                        "direct_iter": False}
     if unit in ("years", "months"):
         steps = min(steps, 7000 if unit == "years" else 60000)
     return {"unit": unit, "n": draw(st.integers(1, 12)), "steps": steps, "date": isdate, "start": [y, m, d, draw(st.integers(0, 23)), draw(st.integers(0, 59)),
